@@ -75,6 +75,8 @@ def _run_one(args):
         with contextlib.redirect_stdout(buf):
             rc = run_property(mu['property'], 'quick', tmp, 0)
         out = buf.getvalue()
+        if os.environ.get('SA_SHOW'):
+            sys.stderr.write(out)
         if mu['kind'] == 'equiv':
             if rc == 0:
                 return mu['id'], 'ok', 'silent on equivalent refactor'
@@ -125,8 +127,14 @@ def main(argv=None) -> int:
     ap.add_argument('-j', type=int, default=16)
     ap.add_argument('-v', action='store_true')
     ap.add_argument('--repo', default=os.environ.get('SA_REPO', '/repo'))
+    ap.add_argument('--show', help='run one mutant (id) and print the complete output of the check')
     a = ap.parse_args(argv)
     pids = [p.upper() for p in a.props] or ALL
+    if a.show:
+        os.environ['SA_SHOW'] = '1'
+        mu = [m for m in mutants_for(a.show.split('-')[0].upper()) if m['id'] == a.show.upper()]
+        print(_run_one((mu[0], a.repo)))
+        return 0
     res = run_mutants(pids, a.repo, a.j)
     bad = 0
     for mu, (mid, status, msg) in res:
